@@ -34,6 +34,14 @@ class TreeMod(roundtrip.RTMod):
         self.invalidations = []
         self.immutable_mutations = []
 
+    def display_into(self, I, st, fref, v, n, ty=None):
+        x = self.unwrap(I, st, v)
+        if x[0] == "abs" and x[1] in ("nref", "tref"):
+            h = heap_get(st)
+            if x[2] in h:
+                return [(OK, ("enum", hirai.OKV, (UNIT,)), self.out_append(I, st, fref, self.text_of(h, x[2])))]
+        return super().display_into(I, st, fref, v, n, ty)
+
     # ---- helpers
     def kval(self, k):
         return ("enum", self.kind_enum + "::" + k, ())
@@ -381,12 +389,29 @@ class TreeMod(roundtrip.RTMod):
                 e2 = h[nid]
                 h[nid] = (e2[0], e2[1], e2[2], tuple(ch), None, True)
                 return [(OK, ("abs", "green", nid), heap_put(st, h))]
+        if c in ("core::mem::take", "core::mem::replace") and args and args[0][0] == "ref":
+            cur = I.read(st, args[0][1])
+            if c.endswith("take"):
+                dflt = ("bool", False) if cur[0] == "bool" else (symstr.lit("") if cur[0] in ("sstr", "str") else (("abs", "svec", ()) if cur[0] == "abs" and cur[1] == "svec" else None))
+                if dflt is not None:
+                    return [(OK, cur, I.write(st, args[0][1], dflt))]
+            else:
+                return [(OK, cur, I.write(st, args[0][1], args[1]))]
+        if raw0 is not None and raw0[0] == "abs" and raw0[1] == "svec" and c == "alloc::slice::<impl [T]>::concat":
+            ps = [symstr.pieces_of(I.deref_val(st, x)) for x in raw0[2]]
+            if all(p is not None for p in ps):
+                out = ()
+                for p in ps:
+                    out += tuple(p)
+                return [(OK, symstr.mk(out), st)]
         # ---------------- nodes
         if isn or ist:
             h = heap_get(st)
             e = h.get(a0[2])
             if e is None:
                 return [(OK, unk("dangling"), st)]
+            if c in ("<T as alloc::string::ToString>::to_string", "alloc::string::ToString::to_string"):
+                return [(OK, symstr.mk(self.text_of(h, e[0])), st)]
             if c.endswith("as core::clone::Clone>::clone"):
                 return [(OK, I.deref_val(st, args[0]), st)]
             if m == "kind" and ("rowan::api" in c):
